@@ -193,3 +193,10 @@ class FailOnCall(BaseEstimator, RegressorMixin, ClassifierMixin):
 
     def transform(self, X):
         return numpy.asarray(X)[:, :1]
+
+
+class RecTrans(RecReg, TransformerMixin):
+    """stub with a transform method: one column, same formula as RecReg.predict"""
+
+    def transform(self, X):
+        return self.predict(X).reshape((-1, 1))
